@@ -83,6 +83,13 @@ MUTANTS = [
     ("C13-tape-name-padding", "C13", "metacommands.py", "encoded_bk_filename = encoded_bk_filename.ljust(16, b\" \")", "encoded_bk_filename = encoded_bk_filename.ljust(16, b\"\\0\")", 1),
     ("C13-tape-name-from-path", "C13", "metacommands.py", "        if bk_filename.lower().endswith(\".wav\"):\n            bk_filename = bk_filename[:-4]", "        if bk_filename.lower().endswith(\".wav\"):\n            bk_filename = bk_filename[:-3]", 1),
     ("C13-raw-gets-extension", "C13", "metacommands.py", "add_emitted_file(state, raw_file_path, \"raw\", None)", "add_emitted_file(state, raw_file_path, \"raw\", \"raw\")", 1),
+    ("C17-line-start-off-by-one", "C17", "context.py", 'idx_line_start = self.code.rfind("\\n", 0, self.pos) + 1', 'idx_line_start = self.code.rfind("\\n", 0, self.pos)', 1),
+    ("C17-line-count-from-whole-text", "C17", "context.py", 'line_no = self.code[:self.pos].count("\\n")', 'line_no = self.code.count("\\n")', 1),
+    ("C10-implicit-word-drops-name", "C10", "compiler.py", "words = [insn.name] + insn.operands[:]", "words = insn.operands[:] or [insn.name]", 1),
+    ("C10-dotless-goes-to-instruction", "C10", "compiler.py", 'return builtin_commands["." + insn.name.name].compile_insn(state, insn)', 'return builtin_commands["." + insn.name.name.lower()].compile_insn(dict(state), insn)', 1),
+    ("C11-bare-name-before-file-prefix", "C11", "compiler.py", 'candidates = (state["internal_symbol_prefix"] + insn.name.name, insn.name.name)', 'candidates = (insn.name.name, ".internal9." + insn.name.name)', 1),
+    ("C08-chr-overflow-uncaught", "C08", "types.py", "        except (ValueError, OverflowError):\n            self.reported_error = True", "        except ValueError:\n            self.reported_error = True", 1),
+    ("C06-string-chunks-reversed", "C06", "types.py", 'return "".join(get_as_str(state, "string chunk", self, chunk) for chunk in self.chunks)', 'return "".join(get_as_str(state, "string chunk", self, chunk) for chunk in reversed(self.chunks))', 1),
     # negative controls: semantically neutral edits, every check must stay green
     ("NEG-rename-local", "C06", "metacommand_impl.py", "    value = wait(arg_token.resolve(state))\n\n    if not isinstance(value, int):", "    value = wait(arg_token.resolve(state))\n    _unused = 1\n\n    if not isinstance(value, int):", 0),
     ("NEG-candidate-order", "C03", "types.py", "            state[\"local_symbol_prefix\"] + self.name,\n            state[\"internal_symbol_prefix\"] + self.name\n", "            state[\"internal_symbol_prefix\"] + self.name,\n            state[\"local_symbol_prefix\"] + self.name\n", 0),
